@@ -442,63 +442,92 @@ Fixpoint conv_chain (cm : list (str * str * option str)) (stack : list cx) (t : 
     (fun b => [SetFragField fname; IfConv uid cidx (w b)], stack2, t2)
   end.
 
+(* the part of the `for node in nodes` loop body that depends on the node's kind: the
+   construct(s) that test the segment ([wrap] places the rest of the node's code inside
+   the innermost `if`), the extended params_stack, the tables, consume_multiple_segments
+   and whether this is the simple-variable node.  [nsimple] = number of simple-variable
+   nodes among the siblings *)
+Definition node_head (n : node) (t : tables) (stack : list cx) (level : nat) (nsimple : nat)
+  : (list cx -> list cx) * list cx * tables * bool * bool :=
+  let ps := parse_seg (raw n) in
+  let cm := convmap ps in
+  match kind_of ps with
+  | KLit => (fun b : list cx => [IfLit level (raw n) b], stack, t, false, false)
+  | KComplex =>
+    let pidx := length (t_pats t) in
+    let t0 := add_pat t ps in
+    match cm with
+    | [] =>
+      let uid := S (length stack) in
+      (fun b => [IfPat level pidx (VarFromMatch uid :: b)],
+       stack ++ [SetParamsDict false uid], t0, false, false)
+    | _ :: _ =>
+      let '(w, stack1, t1) := conv_chain cm stack t0 in
+      if (length cm <? num_fields ps)%nat then
+        let uid := S (length stack1) in
+        (fun b => [IfPat level pidx (PrefetchGroups :: w (VarFromPrefetched uid :: b))],
+         stack1 ++ [SetParamsDict true uid], t1, false, false)
+      else
+        (fun b => [IfPat level pidx (PrefetchGroups :: w b)], stack1, t1, false, false)
+    end
+  | KSimple f =>
+    let ta := if Nat.eqb nsimple 1 then t else t_fail t in   (* assert len(_found_nodes) == 1 *)
+    match cm with
+    | [] => (fun b => b, stack ++ [SetParamPath (f_name f) level], ta, false, true)
+    | (fname, cname, arg) :: _ =>
+      let cidx := length (t_convs ta) in
+      let t1 := add_conv ta cname arg in
+      let multi := cmulti cname in
+      let uid := S (length stack) in
+      (fun b => [if multi then SetFragRest level else SetFragPath level; IfConv uid cidx b],
+       stack ++ [SetParamValue (f_name f) uid], t1, multi, true)
+    end
+  end.
+
+(* the code that follows the children of a node *)
+Definition node_tail (nres : option N) (stack' : list cx) (level ridx : nat) (fast consume : bool)
+  : list cx :=
+  match nres with
+  | None => if fast then [RetNone] else []
+  | Some _ =>
+    if consume then stack' ++ [RetVal ridx]
+    else IfLen false (S level) (stack' ++ [RetVal ridx]) :: (if fast then [RetNone] else [])
+  end.
+
 (* the body of the `for node in nodes` loop of _generate_ast; [rec] generates the children
-   level; [nsimple] = number of simple-variable nodes among the siblings *)
+   level *)
 Definition gen_node_with
     (rec : list node -> tables -> list cx -> nat -> bool -> list cx * tables)
     (n : node) (t : tables) (stack : list cx) (level : nat) (fast : bool) (nsimple : nat)
   : list cx * tables * bool :=
-  let ps := parse_seg (raw n) in
-  let cm := convmap ps in
-  let '(wrap, stack', t1, consume, fs) :=
-    match kind_of ps with
-    | KLit => (fun b : list cx => [IfLit level (raw n) b], stack, t, false, false)
-    | KComplex =>
-      let pidx := length (t_pats t) in
-      let t0 := add_pat t ps in
-      match cm with
-      | [] =>
-        let uid := S (length stack) in
-        (fun b => [IfPat level pidx (VarFromMatch uid :: b)],
-         stack ++ [SetParamsDict false uid], t0, false, false)
-      | _ :: _ =>
-        let '(w, stack1, t1) := conv_chain cm stack t0 in
-        if (length cm <? num_fields ps)%nat then
-          let uid := S (length stack1) in
-          (fun b => [IfPat level pidx (PrefetchGroups :: w (VarFromPrefetched uid :: b))],
-           stack1 ++ [SetParamsDict true uid], t1, false, false)
-        else
-          (fun b => [IfPat level pidx (PrefetchGroups :: w b)], stack1, t1, false, false)
-      end
-    | KSimple f =>
-      let ta := if Nat.eqb nsimple 1 then t else t_fail t in   (* assert len(_found_nodes) == 1 *)
-      match cm with
-      | [] => (fun b => b, stack ++ [SetParamPath (f_name f) level], ta, false, true)
-      | (fname, cname, arg) :: _ =>
-        let cidx := length (t_convs ta) in
-        let t1 := add_conv ta cname arg in
-        let multi := cmulti cname in
-        let uid := S (length stack) in
-        (fun b => [if multi then SetFragRest level else SetFragPath level; IfConv uid cidx b],
-         stack ++ [SetParamValue (f_name f) uid], t1, multi, true)
-      end
-    end in
+  let '(wrap, stack', t1, consume, fs) := node_head n t stack level nsimple in
   let ridx := length (t_rvs t1) in
   let t2 := match res n with Some r => add_rv t1 r | None => t1 end in
   let t3 := if consume && match children n with [] => false | _ => true end
             then t_fail t2 else t2 in                          (* assert not (consume and children) *)
   let '(cc, t4) := rec (children n) t3 stack' (S level) fast in
-  let tail :=
-    match res n with
-    | None => if fast then [RetNone] else []
-    | Some _ =>
-      if consume then stack' ++ [RetVal ridx]
-      else IfLen false (S level) (stack' ++ [RetVal ridx]) :: (if fast then [RetNone] else [])
-    end in
-  (wrap (cc ++ tail), t4, fs).
+  (wrap (cc ++ node_tail (res n) stack' level ridx fast consume), t4, fs).
+
+Fixpoint gen_sibs (rec : list node -> tables -> list cx -> nat -> bool -> list cx * tables)
+         (l : list node) (t : tables) (stack : list cx) (level : nat) (fast : bool) (nsimple : nat)
+  : list cx * tables * bool :=
+  match l with
+  | [] => ([], t, false)
+  | n :: tl =>
+    let '(c1, t1, f1) := gen_node_with rec n t stack level fast nsimple in
+    let '(c2, t2, f2) := gen_sibs rec tl t1 stack level fast nsimple in
+    (c1 ++ c2, t2, f1 || f2)
+  end.
 
 Definition count_simple (nodes : list node) : nat :=
   length (filter (fun n => Nat.eqb (node_class n) 2) nodes).
+
+Definition level_fast (fast : bool) (sorted : list node) : bool :=
+  if fast
+  then (if (1 <? length sorted)%nat
+        then negb (existsb (fun n => negb (Nat.eqb (node_class n) 0)) sorted)
+        else true)
+  else false.
 
 (* _generate_ast.  Fuel = height of the forest + 1 (running out of fuel marks the tables
    not-ok; excluded by the theorems) *)
@@ -511,21 +540,9 @@ Fixpoint gen_level (fuel : nat) (nodes : list node) (t : tables) (stack : list c
     | [] => ([], t)
     | _ :: _ =>
       let sorted := sort3 nodes in
-      let fast' := if fast
-                   then (if (1 <? length sorted)%nat
-                         then negb (existsb (fun n => negb (Nat.eqb (node_class n) 0)) sorted)
-                         else true)
-                   else false in
-      let nsimple := count_simple sorted in
+      let fast' := level_fast fast sorted in
       let '(body, t', found) :=
-        (fix sibs (l : list node) (t : tables) : list cx * tables * bool :=
-           match l with
-           | [] => ([], t, false)
-           | n :: tl =>
-             let '(c1, t1, f1) := gen_node_with (gen_level k) n t stack level fast' nsimple in
-             let '(c2, t2, f2) := sibs tl t1 in
-             (c1 ++ c2, t2, f1 || f2)
-           end) sorted t in
+        gen_sibs (gen_level k) sorted t stack level fast' (count_simple sorted) in
       ([IfLen true level (body ++ (if negb found && fast' then [RetNone] else []))], t')
     end
   end.
